@@ -154,6 +154,12 @@ class Module:
         from .normalize import canonical_dicts
 
         canonical_dicts(self.tree)
+        from .normalize import canonical_args
+
+        canonical_args(self.tree)
+        from .normalize import canonical_suppress
+
+        canonical_suppress(self.tree)
         from .normalize import recompose
 
         recompose(self.tree)
